@@ -55,6 +55,12 @@ def _r(src, args, ret):
 
 
 REGRESSION = [
+    # a tuple literal holding a tuple-typed value (variable, argument, matrix row) with elements of different sizes, indexed later
+    _r("def f(a: bool, q: Tuple[Qint[2], bool]) -> bool:\n    t = (a, q)\n    return t[1][1]\n", [["a", "bool"], ["q", ["Qint2", "bool"]]], "bool"),
+    _r("def f(a: Qint[2], q: Tuple[Qint[2], bool]) -> Qint[2]:\n    t = (a, q)\n    return t[1][0] + t[0]\n", [["a", "Qint2"], ["q", ["Qint2", "bool"]]], "Qint2"),
+    _r("def f(a: bool, q: Tuple[bool, Qint[3]]) -> Tuple[Qint[3], bool]:\n    t = (q, a, q)\n    return (t[2][1], t[0][0] ^ t[1])\n", [["a", "bool"], ["q", ["bool", "Qint3"]]], ["Qint3", "bool"]),
+    _r("def f(a: Qint[2], b: bool) -> Qint[2]:\n    q = (a + 1, b)\n    t = (b, q)\n    return t[1][0] if t[1][1] else a\n", [["a", "Qint2"], ["b", "bool"]], "Qint2"),
+    _r("def f(m: Qmatrix[Qint[2], 2, 2], b: bool) -> Qint[2]:\n    t = (b, m[1])\n    return t[1][1] if t[0] else t[1][0]\n", [["m", [["Qint2", "Qint2"], ["Qint2", "Qint2"]]], ["b", "bool"]], "Qint2"),
     # the loop variable keeps its last value after the loop (name bound before the loop / a parameter / over a list)
     _r("def f(a: Qint[3]) -> Qint[3]:\n    i = 0\n    for i in range(3):\n        a = a ^ i\n    return a + i\n", [["a", "Qint3"]], "Qint3"),
     _r("def f(a: Qint[3], i: Qint[2]) -> Qint[3]:\n    for i in range(1, 4):\n        a = a + i\n    return a ^ i\n", [["a", "Qint3"], ["i", "Qint2"]], "Qint3"),
